@@ -171,19 +171,17 @@ theorem unop_law {β : Type} (op : Arg → β) (f : List Arg → β) (hf : ∀ x
 /-- the outermost container of an operator result is the one asked for (`ChannelList`) -/
 theorem binop_container {β : Type} (op : Arg → Arg → β) (t : Kind) (a b : Arg)
     (h : a.isSeq = true ∨ b.isSeq = true) :
-    listBinop op t a b = .err ∨ ∃ rs, listBinop op t a b = .seq t rs := by
+    ∃ rs, listBinop op t a b = .seq t rs := by
   rw [listBinop]
   by_cases ha : a.isSeq = true <;> by_cases hb : b.isSeq = true
   · simp only [ha, hb, Bool.and_self, if_true]
     split
-    · split
-      · exact Or.inr ⟨_, rfl⟩
-      · exact Or.inl rfl
-    · exact Or.inr ⟨_, rfl⟩
+    · exact ⟨_, rfl⟩
+    · exact ⟨_, rfl⟩
   · simp only [ha, hb, Bool.and_false, Bool.false_eq_true, if_false, if_true]
-    exact Or.inr ⟨_, rfl⟩
+    exact ⟨_, rfl⟩
   · simp only [ha, hb, Bool.false_and, Bool.false_eq_true, if_false, if_true]
-    exact Or.inr ⟨_, rfl⟩
+    exact ⟨_, rfl⟩
   · rcases h with h | h <;> contradiction
 
 /-! ## convenience methods: `flop`, `_multichannel_perform` -/
